@@ -50,6 +50,19 @@ fn base_half() -> M {
     m
 }
 
+/// records already on the CODE stack that PRINT like the records LIST.SET is about to build from the
+/// FLOAT / FLOATVECTOR stacks (floats inside items print with three decimals) but hold different values
+fn base_twin() -> M {
+    let mut m = M::default();
+    m.b = vec![true];
+    m.i = vec![21];
+    m.f = vec![2.5001, 2.5004];
+    m.n = vec!["na".into()];
+    m.fv = vec![vec![6.5001], vec![6.5004]];
+    m.c = vec![Tree::L(vec![Tree::F(2.5004)]), Tree::L(vec![Tree::F(2.5004), Tree::F(2.5001)]), Tree::L(vec![Tree::FV(vec![6.5004])]), Tree::L(vec![Tree::F(2.5001), Tree::F(2.5004)])];
+    m
+}
+
 /// every atom held anywhere in the nine stacks (record contents included): a multiset
 fn all_atoms(m: &M) -> Vec<String> {
     let mut v: Vec<String> = vec![];
@@ -113,9 +126,9 @@ pub fn add_set(ctx: &mut Ctx) {
     ctx.extra.push(("id_vectors".into(), crate::core::J::Int(vecs.len() as i64)));
     let positions = [-1, 0, 1, 2, 3, i32::MAX];
     for ids in &vecs {
-        for (bi, base) in [base_full(), base_half()].iter().enumerate() {
-            // the half-populated base only for the shorter vectors
-            if bi == 1 && ids.len() > 2 {
+        for (bi, base) in [base_full(), base_half(), base_twin()].iter().enumerate() {
+            // the half-populated bases only for the shorter vectors
+            if bi >= 1 && ids.len() > 2 {
                 continue;
             }
             let mut m0 = base.clone();
